@@ -1,0 +1,15 @@
+//go:build verif
+
+// Contracts for the govc verifier (/verif). Comment-only; compiled only with -tags verif.
+// URL vocabulary (urlReqOK, urlReqHost, ...) is defined in /verif/specs/url.ghost.
+
+package pagination
+
+// C16: a page-number candidate either carries no URL at all (placeholder for an empty or
+// javascript: link) or the String() of a URL whose request-URI parse succeeded with the host
+// of the page URL.
+//@ func (*PageNumberFinder).getPageInfoAndText(link, pageURL)
+//@   requires pnf != nil && link != nil && pageURL != nil
+//@   ensures [C16] #only-validated-urls result0 == nil || result0.URL == "" ||
+//@              (urlReqOK(linkHref) && urlReqHost(linkHref) == pageURL.Host && !hasPrefix(linkHref, "javascript:") && linkHref != "" && result0.URL == hrefURL.String())
+//@   ensures [C16] #href-is-resolved-attribute result0 == nil || linkHref == absSpec(dom.GetAttribute(link, "href"), pageURL)
